@@ -743,7 +743,8 @@ impl Printer {
                         let callee = self.bracketed(|| self.expr(f, 8));
                         let a = self.bracketed(|| self.prime_args(args, sep));
                         if a.is_empty() {
-                            (format!("{}'", self.expr(f, 8)), 8)
+                            // `f' - 1` would read `- 1` as the argument: a bare `f'` only where nothing can follow it
+                            if min == 0 { (format!("{}'", self.expr(f, 8)), 8) } else { (format!("({}')", self.expr(f, 8)), 9) }
                         } else {
                             (format!("({}' {})", callee, a), 9)
                         }
